@@ -279,4 +279,72 @@ theorem stale_after_prefix {lib : List Nat} {r1 r2 : Nat} (k : Nat) {f g : File}
   rw [runSteps_id (fun s hs => stepDone_apply hwfg.1 (hdone s hs))]
   simp only [upgrade, hcg]
 
+/-! ### what an interrupted run has kept -/
+
+/-- `run_induction_ok` for a successful prefix of the collected list -/
+theorem prefix_induction_ok {lib : List Nat} {r : Nat} (P : File → Prop)
+    (hstep : ∀ g s rest g', WF g → P g → collect lib g = s :: rest → applyStep lib r g s = (g', none) → P g') :
+    ∀ (k : Nat) {f g : File}, WF f → P f → runSteps lib r f ((collect lib f).take k) = (g, none) → P g := by
+  intro k
+  induction k with
+  | zero =>
+    intro f g _ hP h
+    simp only [List.take_zero, runSteps_nil, Prod.mk.injEq, and_true] at h
+    subst h
+    exact hP
+  | succ k ih =>
+    intro f g hwf hP h
+    cases hc : collect lib f with
+    | nil =>
+      rw [hc] at h
+      simp only [List.take_nil, runSteps_nil, Prod.mk.injEq, and_true] at h
+      subst h
+      exact hP
+    | cons s rest =>
+      rw [hc, List.take_succ_cons, runSteps_cons] at h
+      cases hs : applyStep lib r f s with
+      | mk f' e =>
+        cases e with
+        | some e => rw [hs] at h; simp at h
+        | none =>
+          rw [hs] at h
+          simp only at h
+          obtain ⟨hwf', hc'⟩ := collect_step hwf hc hs
+          rw [← hc'] at h
+          exact ih hwf' (hstep f s rest f' hwf hP hc hs) h
+
+/-- arrays with their dimension readings and everything else are as before at every interruption point, also when
+the run was refused at an earlier step -/
+theorem interrupt_rest_kept {lib : List Nat} {r : Nat} (k : Nat) {f : File} (hwf : WF f) :
+    (interrupt lib r k f).1.arrays.map arrView = f.arrays.map arrView ∧ (interrupt lib r k f).1.other = f.other := by
+  have ok : ∀ (j : Nat) (g : File), interrupt lib r j f = (g, none) →
+      g.arrays.map arrView = f.arrays.map arrView ∧ g.other = f.other := by
+    intro j g hj
+    refine prefix_induction_ok (lib := lib) (r := r)
+      (fun g => g.arrays.map arrView = f.arrays.map arrView ∧ g.other = f.other) ?_ j hwf ⟨rfl, rfl⟩ hj
+    intro g s rest g' hwfg hP hc hs
+    rcases head_class hc with rfl | ⟨p, t, rfl, _⟩ | ⟨ap, dn, D, rfl, hd⟩ | rfl
+    · simp only [applyStep] at hs
+      split at hs <;> (cases hs; exact hP)
+    · simp only [applyStep] at hs
+      obtain ⟨_, _, h3, h4, _⟩ := convertProp_kept r g p hwfg.1
+      rw [hs] at h3 h4
+      simp only at h3 h4
+      rw [h3, h4]
+      exact hP
+    · simp only [applyStep] at hs
+      obtain ⟨h1, _, h3⟩ := convertDim_view hs
+      rw [h1, h3]
+      exact hP
+    · simp only [applyStep, Prod.mk.injEq] at hs
+      rw [← hs.1]
+      exact hP
+  cases hi : interrupt lib r k f with
+  | mk g e =>
+    cases e with
+    | none => exact ok k g hi
+    | some e =>
+      obtain ⟨j, _, hj⟩ := prefix_failure_is_interruption k f g e hwf hi
+      exact ok j g hj
+
 end Nix.Upgrade.Lemmas
